@@ -14,7 +14,8 @@
       handlers as functions of it, in code order; `classifyShape`.
   §2  `ErrKind`: the error chains that actually reach `errorResponse` (with their shapes);
       `classify`; the CONNECT-rejection relay (`maybeConnectErrorResponse`).
-  §3  the error response: what `errorResponse` builds, the response modifiers, `writeResponse`.
+  §3  the error response: what `errorResponse` builds, the response modifiers, `writeResponse`;
+      the relayed CONNECT rejection (`relayResponse`, `writtenRelay`).
   §4  the exchange state machine with one injected fault: `clientStream`.
   §5  `handleLoop`: the consecutive-error counter.
 -/
@@ -196,7 +197,8 @@ def ErrKind.https : ErrKind → Bool
 def classify (k : ErrKind) : Verdict := classifyShape k.https (shapeOf k)
 
 /-- what `writeErrorResponse` writes: the upstream proxy's own reply when the error is a
-    `*connectError` (`maybeConnectErrorResponse`), otherwise `errorResponse` -/
+    `*connectError` (`maybeConnectErrorResponse`) — re-addressed to the client's request
+    (`res.Request = req`, the client's protocol version) —, otherwise `errorResponse` -/
 inductive Written where
   | relay (status : Nat)
   | generated (status : Nat) (label : String)
@@ -274,6 +276,23 @@ def writeResponse (closing : Bool) (r : GoResp) : WireResp :=
 /-- the whole error path of `writeErrorResponse` for a generated response -/
 def writtenError (closing : Bool) (rq : ReqFacts) (status : Nat) (msg errText : Bytes) : WireResp :=
   writeResponse closing (modifyResponse rq (errorResponse rq status msg errText))
+
+/-- The response `writeErrorResponse` relays when the error is the transport's `*connectError`:
+    `OnProxyConnectResponse` built it from the upstream proxy's reply to the transport's own CONNECT —
+    status `status`, `Header = connectRes.Header.Clone()` (`up`), the body it could read (`body`, empty
+    when the reply announced none or was torn), `ContentLength = len(body)` — and `writeErrorResponse`
+    now hands it to the client's request: `res.Request = req`, `res.Proto* = req.Proto*`.  Nothing of
+    forwarder's own is added: no `X-Forwarder-Error` unless the upstream proxy sent one.
+    (Statuses that admit a body: `writeResponse` below writes `Content-Length` also when it is 0.) -/
+def relayResponse (rq : ReqFacts) (status : Nat) (up : HMap) (body : Bytes) : GoResp :=
+  { status := status, minor := rq.minor, header := up, body := body, contentLength := body.length,
+    close := rq.close }
+
+/-- the whole path of `writeErrorResponse` for a relayed transport-level CONNECT rejection: the
+    response modifiers run for the client's request (its method is not CONNECT: the response rules
+    apply), `writeResponse` decides `Connection: close` from the client's request -/
+def writtenRelay (closing : Bool) (rq : ReqFacts) (status : Nat) (up : HMap) (body : Bytes) : WireResp :=
+  writeResponse closing (modifyResponse rq (relayResponse rq status up body))
 
 def WireResp.values (w : WireResp) (name : Bytes) : List Bytes :=
   (w.fields.filter fun f => f.1 == lower name).flatMap (·.2)
@@ -385,7 +404,9 @@ inductive CloseKind where
 inductive ClientObs where
   /-- one complete response built by `errorResponse` -/
   | errorResponse (id status : Nat) (label : String) (keepAlive : Bool)
-  /-- the upstream proxy's own reply to CONNECT; `wellFormed = false`: status line `HTTP/0.0 …` (F12) -/
+  /-- the upstream proxy's own reply to CONNECT; `wellFormed = false`: a status line whose protocol
+      version is not HTTP/1.0 or HTTP/1.1 (never produced by `clientStream`; it is what a client saw
+      before the repair of F12: `HTTP/0.0 …`, and `cleanOutcome` rejects it) -/
   | relayedRejection (id status : Nat) (wellFormed keepAlive : Bool)
   /-- the origin's complete response -/
   | complete (id : Nat) (framing : Framing) (bodyBytes : Nat) (keepAlive : Bool)
@@ -402,8 +423,9 @@ inductive ClientObs where
 def errorObs (ex : Exchange) (k : ErrKind) : ClientObs :=
   match errorWritten k with
   | .relay s =>
-    -- `res.Request` is the transport's own CONNECT request: protocol 0.0, `Close` false (F12)
-    .relayedRejection ex.id s false true
+    -- `res.Request` is the client's request: its protocol version, `Close` as the client asked;
+    -- `OnProxyConnectResponse` gives the response a known length, so nothing else forces a close
+    .relayedRejection ex.id s true (!ex.reqClose)
   | .generated s l => .errorResponse ex.id s l (!ex.reqClose)
 
 /-- framing of the relayed body on the client connection: an HTTP/1.0 client cannot parse a chunked
@@ -491,12 +513,19 @@ def upstreamKind : ErrKind → Bool
   | .martianStatus _ | .proxyAuth | .denied | .prohibited | .connectRejected _ | .statusTextError _ _ => false
   | _ => true
 
-/-- the exchange passes through a transport-level CONNECT that the upstream rejects (F12's class) -/
+/-- the exchange passes through a transport-level CONNECT that the upstream rejects (the class of
+    the repaired F12): the rejection is relayed by `writeErrorResponse` -/
 def transportConnectRejection (f : Fault) (ex : Exchange) : Bool :=
   match f with
   | .connectReply (.rejected _ _) => usesConnect ex && ex.kind != .connect
   | .connectReply (.rejectedCut _ _ _) => usesConnect ex && ex.kind != .connect
   | _ => false
+
+/-- the status with which the upstream proxy rejects a CONNECT, if the fault is such a rejection -/
+def Fault.rejectionStatus : Fault → Option Nat
+  | .connectReply (.rejected s _) => some s
+  | .connectReply (.rejectedCut s _ _) => some s
+  | _ => Option.none
 
 /-- the fault point lies inside the reply of this exchange -/
 def Fault.wf (f : Fault) (ex : Exchange) : Bool :=
